@@ -1,49 +1,70 @@
 #!/usr/bin/env python3
 """Run the registered check of each seeded change's property with the change applied.
-Default (isolated): works on scratch copies — /tmp/vscore (rsync of /verif incl. build output) and a git worktree of
-/repo — so that agents and checks running against /repo and /verif are not disturbed; `--in-place` applies the patch to
-/repo itself and reverts it afterwards, as the registered workflow does.
-usage: score_seeded.py [--in-place] [ids...]   (default: all under /verif/seeded). Results go to meta.json."""
+Default (isolated): works on scratch copies — /tmp/vscore<w> (rsync of /verif incl. build output) and a git worktree of
+/repo per worker — so that agents and checks running against /repo and /verif are not disturbed; `--in-place` applies the
+patch to /repo itself and reverts it afterwards, as the registered workflow does.
+usage: score_seeded.py [--in-place] [--workers N] [ids...]   (default: all under /verif/seeded). Results go to meta.json."""
 import json, os, subprocess, sys, time
+from concurrent.futures import ThreadPoolExecutor
 root = '/verif/seeded'
 args = sys.argv[1:]
 inplace = '--in-place' in args
 args = [a for a in args if a != '--in-place']
+workers = 1
+if '--workers' in args:
+    i = args.index('--workers'); workers = int(args[i + 1]); del args[i:i + 2]
+if inplace:
+    workers = 1
 ids = args or sorted(os.listdir(root))
-VS, RS = '/tmp/vscore', '/tmp/rscore'
-if not inplace:
-    subprocess.run(['rsync', '-a', '--delete', '--exclude', '.git', '--exclude', 'replays', '/verif/', VS + '/'], check=True)
-    subprocess.run(['git', '-C', '/repo', 'worktree', 'remove', '--force', RS], capture_output=True)
-    subprocess.run(['git', '-C', '/repo', 'worktree', 'add', '-q', '--detach', RS, 'HEAD'], check=True)
-summary = []
-for sid in ids:
-    d = os.path.join(root, sid)
-    meta = json.load(open(os.path.join(d, 'meta.json')))
-    pid = meta['property']
-    repo = '/repo' if inplace else RS
-    vdir = '/verif' if inplace else VS
-    if subprocess.run(['git', '-C', repo, 'diff', '--quiet']).returncode != 0:
-        print('REPO DIRTY'); sys.exit(9)
-    if subprocess.run(['git', '-C', repo, 'apply', os.path.join(d, 'patch.diff')]).returncode != 0:
-        summary.append((sid, 'patch does not apply')); continue
-    try:
-        t0 = time.time()
-        env = dict(os.environ)
-        if not inplace:
-            env['VERIF_REPO'] = RS
-        p = subprocess.run(['./check', pid, 'quick'], cwd=vdir, capture_output=True, text=True, timeout=1800, env=env)
-        out = p.stdout + p.stderr
-    finally:
-        subprocess.run(['git', '-C', repo, 'checkout', '--', '.'])
-    vio = [l for l in out.split('\n') if l.startswith('VIOLATION')]
-    res = {'check': f'./check {pid} quick', 'exit': p.returncode, 'violation_line': vio[0] if vio else None,
-           'failing_input_found': bool(vio) and 'no-failing-input-found' not in vio[0],
-           'no_longer_checks': [l.strip() for l in out.split('\n') if 'no longer checks' in l][:4],
-           'wall_s': round(time.time() - t0, 1), 'at_repo': subprocess.run(['git', '-C', '/repo', 'rev-parse', '--short', 'HEAD'], capture_output=True, text=True).stdout.strip()}
-    meta['check_results'] = [r for r in meta.get('check_results', []) if r.get('check') != res['check']] + [res]
-    json.dump(meta, open(os.path.join(d, 'meta.json'), 'w'), indent=1)
-    summary.append((sid, 'CAUGHT' if p.returncode == 1 else f'MISSED(exit {p.returncode})', 'input' if res['failing_input_found'] else 'no-input', res['wall_s']))
-for s in summary:
-    print(*s)
-if not inplace:
-    subprocess.run(['git', '-C', '/repo', 'worktree', 'remove', '--force', RS], capture_output=True)
+HEAD = subprocess.run(['git', '-C', '/repo', 'rev-parse', '--short', 'HEAD'], capture_output=True, text=True).stdout.strip()
+
+
+def work(w, mine):
+    VS, RS = (f'/tmp/vscore{w}', f'/tmp/rscore{w}') if workers > 1 else ('/tmp/vscore', '/tmp/rscore')
+    if not inplace:
+        subprocess.run(['rsync', '-a', '--delete', '--exclude', '.git', '--exclude', 'replays', '--exclude', 'harmless', '/verif/', VS + '/'], check=True)
+        subprocess.run(['git', '-C', '/repo', 'worktree', 'remove', '--force', RS], capture_output=True)
+        subprocess.run(['git', '-C', '/repo', 'worktree', 'add', '-q', '--detach', RS, 'HEAD'], check=True)
+    summary = []
+    for sid in mine:
+        d = os.path.join(root, sid)
+        meta = json.load(open(os.path.join(d, 'meta.json')))
+        pid = meta['property']
+        repo = '/repo' if inplace else RS
+        vdir = '/verif' if inplace else VS
+        if subprocess.run(['git', '-C', repo, 'diff', '--quiet']).returncode != 0:
+            print('REPO DIRTY'); sys.exit(9)
+        if subprocess.run(['git', '-C', repo, 'apply', os.path.join(d, 'patch.diff')]).returncode != 0:
+            summary.append((sid, 'patch does not apply')); continue
+        try:
+            t0 = time.time()
+            env = dict(os.environ)
+            if not inplace:
+                env['VERIF_REPO'] = RS
+            p = subprocess.run(['./check', pid, 'quick'], cwd=vdir, capture_output=True, text=True, timeout=1800, env=env)
+            out = p.stdout + p.stderr
+        finally:
+            subprocess.run(['git', '-C', repo, 'checkout', '--', '.'])
+            subprocess.run(['git', '-C', repo, 'clean', '-fdq'])
+        vio = [l for l in out.split('\n') if l.startswith('VIOLATION')]
+        res = {'check': f'./check {pid} quick', 'exit': p.returncode, 'violation_line': vio[0] if vio else None,
+               'failing_input_found': bool(vio) and 'no-failing-input-found' not in vio[0],
+               'no_longer_checks': [l.strip() for l in out.split('\n') if 'no longer checks' in l][:4],
+               'wall_s': round(time.time() - t0, 1), 'at_repo': HEAD}
+        meta['check_results'] = [r for r in meta.get('check_results', []) if r.get('check') != res['check']] + [res]
+        json.dump(meta, open(os.path.join(d, 'meta.json'), 'w'), indent=1)
+        row = (sid, 'CAUGHT' if p.returncode == 1 else f'MISSED(exit {p.returncode})', 'input' if res['failing_input_found'] else 'no-input', res['wall_s'])
+        print(*row, flush=True)
+        summary.append(row)
+    if not inplace:
+        subprocess.run(['git', '-C', '/repo', 'worktree', 'remove', '--force', RS], capture_output=True)
+        if workers > 1:
+            subprocess.run(['rm', '-rf', VS])
+    return summary
+
+
+with ThreadPoolExecutor(workers) as ex:
+    futs = [ex.submit(work, w, ids[w::workers]) for w in range(workers)]
+    allr = [r for f in futs for r in f.result()]
+print('caught', sum(1 for r in allr if len(r) > 1 and r[1] == 'CAUGHT'), 'of', len(allr),
+      '; with failing input', sum(1 for r in allr if len(r) > 2 and r[2] == 'input'))
